@@ -71,6 +71,7 @@ func runC03(c *Ctx) {
 	ruleAggregation(c, "R3.3")
 	ruleCacheShape(c, "R3.4")
 	ruleTransitionSwap(c, "R3.5")
+	ruleValidateBeforeStore(c, "R3.6") // the gate in front of the share swap refuses nothing the DKG layer agreed on
 	ruleVaultSwap(c, "R3.5") // the polynomial partials are checked against is swapped together with the group and share
 }
 
@@ -473,6 +474,7 @@ func runC04(c *Ctx) {
 	}
 	ruleSyncTargets(c, "R4.6")
 	ruleClockSource(c, "R4.7")
+	ruleStopCancelsFirst(c, "R4.8")
 }
 
 func ruleSingleSigner(c *Ctx, rule string, sign *ssa.Function) {
@@ -803,6 +805,40 @@ func ruleSignedRound(c *Ctx, rule string, sign *ssa.Function) {
 		}
 	}
 	c.Ok(rule, "signed round is head+1, or the ticked round when it equals the head", pos, okRound, detail)
+	// head+1 alone is not enough: when the head already holds the ticked round (peers slightly ahead of this node's clock
+	// produced it first) head+1 is a round whose time has not come; the signing function must fall back to the ticked round
+	// there, with that round's previous signature
+	hasResign := false
+	prevResign := false
+	var prevPaths []string
+	var leaves func(v ssa.Value, d int) []ssa.Value
+	leaves = func(v ssa.Value, d int) []ssa.Value {
+		if ph, ok := stripConv(v).(*ssa.Phi); ok && d < 4 {
+			var out []ssa.Value
+			for _, e := range ph.Edges {
+				out = append(out, leaves(e, d+1)...)
+			}
+			return out
+		}
+		return []ssa.Value{stripConv(v)}
+	}
+	for _, def0 := range resolveSpillAll(fields["Round"]) {
+		for _, def := range leaves(def0, 0) {
+			if pathOf(def) == cur.Name()+".round" {
+				hasResign = true
+			}
+		}
+	}
+	for _, def0 := range resolveSpillAll(fields["PreviousSig"]) {
+		for _, def := range leaves(def0, 0) {
+			prevPaths = append(prevPaths, pathOf(def))
+			if pathOf(def) == upon.Name()+".PreviousSig" {
+				prevResign = true
+			}
+		}
+	}
+	c.Ok(rule, "when the head already holds the ticked round the node re-signs that round, not the next one", pos, hasResign && prevResign,
+		fmt.Sprintf("signed round can be the ticked round: %v; with the stored beacon's previous signature: %v (%s)", hasResign, prevResign, strings.Join(prevPaths, ",")))
 	// packet carries the digested round / previous signature
 	var pktFields map[string]ssa.Value
 	forEachInstr(sign, func(_ *ssa.BasicBlock, _ int, in ssa.Instruction) {
@@ -1029,4 +1065,72 @@ func paramBehind(v ssa.Value) *ssa.Parameter {
 		}
 	}
 	return nil
+}
+
+// R4.8: stopping a handler cancels its context before it stops the ticker. Ticker.Stop closes the tick channels and the
+// run loop reads a closed channel as a stream of zero-valued ticks (round 0 never equals the head, so each one would sign
+// head+1); only the already cancelled context makes those phantom ticks harmless.
+func ruleStopCancelsFirst(c *Ctx, rule string) {
+	c.ranRules[rule] = true
+	fn := c.P.Fn("internal/chain/beacon.(*Handler).Stop")
+	if !c.Anchor(rule, "internal/chain/beacon.(*Handler).Stop", fn != nil) {
+		return
+	}
+	var cancel ssa.Instruction
+	var stops []ssa.Instruction
+	forEachInstr(fn, func(_ *ssa.BasicBlock, _ int, in ssa.Instruction) {
+		call, ok := in.(*ssa.Call)
+		if !ok {
+			return
+		}
+		if call.Common().StaticCallee() == nil && !call.Common().IsInvoke() && strings.HasSuffix(pathOf(call.Common().Value), ".ctxCancel") {
+			cancel = in
+		}
+		n := calleeName(call)
+		if strings.HasSuffix(n, "beacon.ticker).Stop") || strings.HasSuffix(n, "beacon.chainStore).Stop") {
+			stops = append(stops, in)
+		}
+	})
+	ok := cancel != nil && len(stops) > 0
+	for _, s := range stops {
+		if cancel == nil || !dominatesInstr(cancel, s) {
+			ok = false
+		}
+	}
+	c.Ok(rule, "Handler.Stop cancels the handler context before it stops the ticker and the chain store", c.P.Pos(fn.Pos()), ok,
+		fmt.Sprintf("ctxCancel() found: %v; %d component stop(s), each after the cancel", cancel != nil, len(stops)))
+	// and the signing function sends nothing once the context is cancelled: a cancellation check dominates every send to a peer
+	sign := c.P.Fn("internal/chain/beacon.(*Handler).broadcastNextPartial")
+	if sign != nil {
+		n := 0
+		okc := true
+		forEachInstr(sign, func(_ *ssa.BasicBlock, _ int, in ssa.Instruction) {
+			g, isGo := in.(*ssa.Go)
+			if !isGo {
+				return
+			}
+			f := calledFunc(g)
+			if f == nil || len(callsIn(f, func(ci ssa.CallInstruction) bool { return ci.Common().IsInvoke() && ci.Common().Method.Name() == "PartialBeacon" })) == 0 {
+				return
+			}
+			n++
+			guarded := false
+			forEachInstr(sign, func(_ *ssa.BasicBlock, _ int, x ssa.Instruction) {
+				if sel, isSel := x.(*ssa.Select); isSel && !sel.Blocking {
+					for _, st := range sel.States {
+						if dc, isCall := stripConv(st.Chan).(*ssa.Call); isCall && dc.Common().IsInvoke() && dc.Common().Method.Name() == "Done" && dominatesInstr(x, in) {
+							guarded = true
+						}
+					}
+				}
+				if call, isCall := x.(*ssa.Call); isCall && call.Common().IsInvoke() && call.Common().Method.Name() == "Err" && dominatesInstr(x, in) {
+					guarded = true
+				}
+			})
+			if !guarded {
+				okc = false
+			}
+		})
+		c.Ok(rule, "the signing function sends no partial once its context is cancelled", c.P.Pos(sign.Pos()), okc && n > 0, fmt.Sprintf("%d send goroutine(s), each behind a ctx.Done()/ctx.Err() check", n))
+	}
 }
